@@ -90,6 +90,14 @@ def async_body(facts, root):
     return t[0] if t else None
 
 
+def async_main_body(facts, root):
+    """the coroutine of `root` that holds the function's own statements: the largest one (an async block nested in a
+    closure of the function comes first in tree order; #[tracing::instrument] puts the real body one block deeper than
+    the async fn's own coroutine, which then only forwards)"""
+    t = [b for b in facts.tree(root) if b.coroutine]
+    return max(t, key=lambda b: len(list(b.calls()))) if t else None
+
+
 def settled_calls(b, name_rx):
     """[(call_bb, term, settle-dict)] for calls matching name_rx"""
     out = []
